@@ -128,7 +128,7 @@ class Ctx:
 class GroupMachine(Machine):
     pid = "C15"
     title = "Observer groups broadcast settings faithfully and keep members consistent"
-    quick_runs = 3000
+    quick_runs = 12000
     thorough_runs = 300000
     components_real = ["cherab.tools.observers.group.* (all group classes)", "cherab.tools.observers.bolometry.BolometerCamera/Foil/Slit",
                        "cherab.tools.observers.spectroscopy (deprecated observers)", "raysect observers and scene graph"]
